@@ -24,7 +24,7 @@ type e13desc struct {
 }
 
 var e13Triggers = []string{"close", "close3", "cancel", "list-error", "close5"}
-var e13States = []string{"plain", "slow-lists", "watch-block", "watch-flap", "not-ready"}
+var e13States = []string{"plain", "slow-lists", "watch-block", "watch-flap", "not-ready", "watch-frames"}
 
 const e13Steps = 14
 
@@ -32,9 +32,22 @@ const e13Steps = 14
 // firePoint>0 fires it from inside that logger point.  It returns the number
 // of logger points seen (for the dry run).
 func e13Run(r *Res, d e13desc, fireStep, firePoint int) int {
+	n, _ := e13RunCtx(r, d, fireStep, firePoint, 0)
+	return n
+}
+
+// e13RunCtx: fireCtx>0 cancels the controller's context from inside its
+// fireCtx-th Done()/Err() consultation by the library (kit.TrigCtx).  Returns
+// the logger points and the context consultations seen.
+func e13RunCtx(r *Res, d e13desc, fireStep, firePoint, fireCtx int) (int, int) {
 	rng := kit.NewRng(kit.Mix(d.Seed, uint64(d.Scen)+1300))
 	P := []time.Duration{time.Second, 10 * time.Second}[rng.Intn(2)]
 	plan := &kit.Plan{Seed: rng.U64(), PYield: 80, PSleep: 15, MaxSleep: 60 * time.Microsecond}
+	if d.Scen%2 == 1 {
+		// hold a subscription's own clean-up a little (coverage only: if the library words
+		// its log differently the hold simply does not happen)
+		plan.Targets = map[string]time.Duration{"subscription done": 300 * time.Microsecond}
+	}
 	core := kit.NewCore(plan)
 	if firePoint <= 0 && fireStep >= 0 && (fireStep+d.Scen)%4 == 3 {
 		core = nil // race mode (step-triggered cases only; point triggers need the recording logger)
@@ -80,20 +93,39 @@ func e13Run(r *Res, d e13desc, fireStep, firePoint int) int {
 			case 1:
 				f.CloseAfter = 2
 			}
+		case "watch-frames":
+			// frames that are not API objects, then a close on every other stream
+			f.Frames = map[int][]watchEvent{
+				0: {kit.UnknownFrame()},
+				1: {kit.StatusFrame(), {Type: "ADDED", Object: nil}},
+				2: {kit.BookmarkFrame(1), kit.ForeignFrame(9000 + i)},
+			}
+			if i%2 == 1 {
+				f.CloseAfter = 3
+			}
 		}
 		return f
 	}
-	g, err := newCtlRig(core, srv, P, nil)
+	tctx := kit.NewTrigCtx()
+	if fireCtx > 0 {
+		tctx.CancelAtCall(fireCtx)
+	}
+	g, err := newCtlRigCtx(core, srv, P, nil, tctx, tctx.Cancel)
 	if err != nil {
 		r.Inc(err.Error())
-		return 0
+		return 0, 0
 	}
 	fam := filterFamily()
 	t := newTree(g.ctl)
 	tmu := newChanLock()
 	if err := t.grow(rng, 6+rng.Intn(4), 4, fam, childKinds, true); err != nil {
-		r.V("C12", "tree-build-error", "%v", err)
-		return 0
+		if !(tctx.Fired() && errors.Is(err, kcache.ErrNotRunning)) {
+			r.V("C12", "tree-build-error", "%v", err)
+			return 0, 0
+		}
+		// the context was cancelled from inside one of the first consultations: a
+		// publisher that refuses further children with ErrNotRunning is right
+		r.Add("tree-build-refused-after-cancel", 1)
 	}
 	// ---- the trigger ----
 	var fired atomic.Bool
@@ -160,6 +192,28 @@ func e13Run(r *Res, d e13desc, fireStep, firePoint int) int {
 				rmu.Unlock()
 			}()
 		}
+		// owners closing their own leaves while the root goes down and events are in flight
+		tmu.Lock()
+		var leaves []*node
+		for _, n := range t.nodes {
+			if n != t.root && len(n.children) == 0 && !isClosed(n.done) {
+				leaves = append(leaves, n)
+			}
+		}
+		tmu.Unlock()
+		for i := 0; i < 2 && i < len(leaves); i++ {
+			lf := leaves[(i*7+d.Scen)%len(leaves)]
+			rwg.Add(1)
+			go func() {
+				defer rwg.Done()
+				lf.closer()
+			}()
+		}
+		srv.Put(kit.Pod("n0", "zz", "", map[string]string{"l": "x"}))
+		srv.Put(kit.Pod("n1", "zz", "", map[string]string{"l": "y"}))
+		if d.Scen%2 == 1 {
+			time.Sleep(time.Duration(20+d.Scen*13%200) * time.Microsecond)
+		}
 		switch d.Trigger {
 		case "close", "close3", "close5":
 			nClose = map[string]int{"close": 1, "close3": 3, "close5": 5}[d.Trigger]
@@ -198,6 +252,17 @@ func e13Run(r *Res, d e13desc, fireStep, firePoint int) int {
 		case 4:
 			tmu.Lock()
 			t.grow(rng, 1, 4, fam, childKinds, true)
+			// an owner closes one of its leaves while events are flowing
+			if s >= 7 {
+				for _, n := range t.nodes {
+					if n != t.root && len(n.children) == 0 && !isClosed(n.done) && rng.Chance(40) {
+						u.mutate(rng, srv)
+						go n.closer()
+						u.mutate(rng, srv)
+						break
+					}
+				}
+			}
 			tmu.Unlock()
 		case 5:
 			time.Sleep(P + P/5)
@@ -209,11 +274,21 @@ func e13Run(r *Res, d e13desc, fireStep, firePoint int) int {
 			fire()
 		}
 	}
-	if fireStep < 0 && firePoint <= 0 {
+	if fireStep < 0 && firePoint <= 0 && fireCtx <= 0 {
 		// dry run: count the points, then shut down normally
 		n := core.Seq()
 		g.shutdown(r, "C12")
-		return n
+		return n, tctx.Calls()
+	}
+	if fireCtx > 0 {
+		if tctx.Fired() {
+			r.Set("trigger-points", tctx.FiredIn())
+			fired.Store(true) // the cancellation happened inside the library's own ctx call
+		} else {
+			r.Add("trigger-point-not-reached", 1)
+			tctx.Cancel()
+			fired.Store(true)
+		}
 	}
 	if !fired.Load() {
 		// the chosen point was never reached in this schedule
@@ -232,7 +307,7 @@ func e13Run(r *Res, d e13desc, fireStep, firePoint int) int {
 	}
 	if !waitCh(g.ctl.Done(), bound) {
 		r.V("C12", "done-hang", "trigger %s at %s in state %s: controller Done() not closed within %v of virtual time (client honours cancellation)\n%s", d.Trigger, where, d.State, bound, kit.CensusText(kit.Census(), 14))
-		return 0
+		return 0, 0
 	}
 	if nClose > 0 {
 		deadline := time.Now().Add(time.Minute)
@@ -241,14 +316,14 @@ func e13Run(r *Res, d e13desc, fireStep, firePoint int) int {
 		}
 		if int(closeRet.Load()) < nClose {
 			r.V("C12", "close-hang", "trigger %s at %s: Done() is closed but only %d of %d concurrent Close() calls returned\n%s", d.Trigger, where, closeRet.Load(), nClose, kit.CensusText(kit.Census(), 10))
-			return 0
+			return 0, 0
 		}
 	}
 	rok := make(chan struct{})
 	go func() { rwg.Wait(); close(rok) }()
 	if !waitCh(rok, virtBound) {
 		r.V("C12", "racing-call-hang", "trigger %s at %s: a Subscribe/Clone call racing with shutdown did not return\n%s", d.Trigger, where, kit.CensusText(kit.Census(), 10))
-		return 0
+		return 0, 0
 	}
 	for _, rr := range raced {
 		r.Add("racing-calls", 1)
@@ -259,7 +334,7 @@ func e13Run(r *Res, d e13desc, fireStep, firePoint int) int {
 			r.Add("racing-calls-got-object", 1)
 			if !waitCh(rr.done, virtBound) {
 				r.V("C12", "zombie", "%s racing with shutdown (%s at %s) returned an object that never becomes done\n%s", rr.what, d.Trigger, where, kit.CensusText(kit.Census(), 10))
-				return 0
+				return 0, 0
 			}
 		}
 	}
@@ -267,7 +342,7 @@ func e13Run(r *Res, d e13desc, fireStep, firePoint int) int {
 	g.barrier()
 	if gs := kit.Census(); len(gs) > 0 {
 		r.V("C12", "goroutine-leak", "trigger %s at %s in state %s: %d library goroutine(s) remain after the root is done: %v\n%s", d.Trigger, where, d.State, len(gs), kit.CensusKeys(gs), kit.CensusText(gs, 6))
-		return 0
+		return 0, 0
 	}
 	for _, n := range t.nodes {
 		if !isClosed(n.done) {
@@ -351,7 +426,7 @@ func e13Run(r *Res, d e13desc, fireStep, firePoint int) int {
 		var dn <-chan struct{}
 		if !within(func() { err, dn = c.fn() }) {
 			r.V("C12", "api-call-blocks-after-done", "%s blocks after the root is done (trigger %s at %s)\n%s", c.name, d.Trigger, where, kit.CensusText(kit.Census(), 8))
-			return 0
+			return 0, 0
 		}
 		r.Add("post-done-api-calls", 1)
 		if err != nil && !errors.Is(err, kcache.ErrNotRunning) {
@@ -360,7 +435,7 @@ func e13Run(r *Res, d e13desc, fireStep, firePoint int) int {
 		if err == nil && dn != nil {
 			if !waitCh(dn, virtBound) {
 				r.V("C12", "zombie", "%s after the root is done returned an object that never becomes done", c.name)
-				return 0
+				return 0, 0
 			}
 		}
 	}
@@ -369,7 +444,7 @@ func e13Run(r *Res, d e13desc, fireStep, firePoint int) int {
 		r.V("C12", "goroutine-leak", "after the post-Done API calls %d library goroutine(s) remain: %v\n%s", len(gs), kit.CensusKeys(gs), kit.CensusText(gs, 6))
 	}
 	r.Add("terminations", 1)
-	return core.Seq()
+	return core.Seq(), tctx.Calls()
 }
 
 func e13Case(seed uint64, scen int, trig, state string, fireStep, k, K int) Case {
@@ -398,6 +473,26 @@ func e13Case(seed uint64, scen int, trig, state string, fireStep, k, K int) Case
 	}}
 }
 
+// e13CtxCase: the context is cancelled from inside the k-th of the K
+// consultations (Done()/Err()) the library makes of it in this scenario.
+func e13CtxCase(seed uint64, scen int, state string, k, K int) Case {
+	at := fmt.Sprintf("ctxcall:%d/%d of the run's context consultations", k, K)
+	d := e13desc{seed, scen, "cancel", at, state}
+	id := fmt.Sprintf("E13/%d/s%d/%s/cancel/%s", seed, scen, state, at)
+	return Case{ID: id, Desc: d, Bubble: true, Run: func(r *Res) {
+		_, n := e13RunCtx(r, e13desc{seed, scen, "close", "dry-run", state}, -1, 0, 0)
+		if n <= 0 || r.Failed() {
+			return
+		}
+		call := 1 + k*n/K
+		r.Max("ctx-consultations-per-run", int64(n))
+		e13RunCtx(r, d, -1, 0, call)
+		r.Key(id)
+		r.Set("states-triggers", state+"/ctx-cancel")
+		r.Sample = map[string]interface{}{"desc": d, "fired_at_ctx_call": call, "of": n}
+	}}
+}
+
 func init() {
 	register("E13", func(tier string, seed uint64) []Case {
 		var cases []Case
@@ -421,6 +516,10 @@ func init() {
 					for k := 0; k < K; k++ {
 						cases = append(cases, e13Case(seed, sc, tr, st, -1, k, K))
 					}
+				}
+				KC := tierPick(tier, 12, 48)
+				for k := 0; k < KC; k++ {
+					cases = append(cases, e13CtxCase(seed, sc, st, k, KC))
 				}
 			}
 		}
